@@ -274,6 +274,9 @@ func visitInstr(fr *frame, instr ssa.Instruction) continuation {
 		fr.i.selectOp([]selCase{{ch: fr.get(instr.Chan).(*chanObj), send: true, val: copyVal(fr.get(instr.X))}}, true, fr.i.posString(instr.Pos(), fr.fn))
 
 	case *ssa.Store:
+		if fr.i.path.watched != nil {
+			fr.i.noteWrite(fr.get(instr.Addr).(*value), fr)
+		}
 		store(mustDeref(instr.Addr.Type()), fr.get(instr.Addr).(*value), fr.get(instr.Val))
 
 	case *ssa.If:
